@@ -8,10 +8,10 @@
 
     Each map-ranging loop of the consensus-critical code is transcribed here as a function of that entry
     LIST (a fold in list order).  [Proofs/MapLoops.v] proves for each one that its observable result does not
-    change under permutation of the list.  [site_table] ties the transcriptions to the source: one row per
-    [range]-over-map statement of the inventory regenerated from /repo ([Gen/HazardsGen.v]), keyed by file,
-    enclosing function and the hash of the normalised statement text — a new or changed statement matches no
-    row and is an open obligation ([Model/DeterminismCheck.v: unmatched_sites]). *)
+    change under permutation of the list.  Whether a [range]-over-map statement of the source is COVERED is not
+    decided here but by the classifier of [Model/MapLoopsIR.v] on the loop regenerated from the source (sound for
+    every interpretation of the loop's expressions, [Proofs/MapLoopsIR.v]); a statement outside the classified
+    fragment is an open obligation ([Model/DeterminismCheck.v: unmatched_sites]). *)
 From Coq Require Import List String NArith Bool Permutation Sorting.Sorted.
 From Teleport Require Import Base.Bytes Base.Outcome.
 Import ListNotations.
@@ -177,40 +177,63 @@ Definition verify_cascading (tmp_ok seal_ok : bool) : outcome unit :=
 Definition verify_cascading_in_memory (tmp_ok seal_ok : bool) : outcome unit :=
   if seal_ok then Ok tt else Err.
 
-(** ** The table: inventory row -> transcription -> lemma
+(** ** ETH seal verification with ALL its environment touch points
 
-    [Proved name]: the statement transcribed above, permutation invariance proved as lemma [name] of
-    [Proofs/MapLoops.v] (certificate in [Proofs/MapLoopsTable.v]).
-    [Argued why]: NOT proved — the loop is not a function of the entry set (or is not worth modelling) and the
-    reason it cannot reach state, results or events is given; these rows are the "partial" part. *)
-Inductive disposition := Proved (lemma : string) | Argued (reason : string).
+    ethash.go [cache.generate(dir, ...)] and verify_header.go [VerifySeal(header, fulldag)], as called from
+    VerifyCascadingFields.  The node's environment enters in two places:
+    - the verification cache: [dir = ""] generates the words in memory; otherwise an existing file
+      [dir/cache-R23-<seed>] that memory-maps and starts with the magic number is used AS IT IS (the words are not
+      checked against the seed: a stale or corrupted file changes the verdict), and only when there is none the words
+      are generated (into a new file, or in memory when that fails);
+    - [fulldag = true]: the full dataset is generated in a background goroutine; the verdict comes from the dataset when
+      it is ready ([generated()]), from the cache otherwise — which one depends on the scheduler.
+    [gen]: the cache words for the header's epoch (a function of the epoch alone); [light words h]: hashimotoLight on the
+    given words compared with the header's mix digest and target; [full sched h]: the dataset's verdict when ready. *)
+Record fs_env := {
+  fe_mapped_file : option (list N);   (* memoryMap(path) succeeds and finds these words *)
+  fe_can_create : bool                (* memoryMapAndGenerate succeeds *)
+}.
 
+Definition cache_generate (cache_dir_empty : bool) (gen : list N) (fs : fs_env) : list N :=
+  if cache_dir_empty then gen
+  else match fe_mapped_file fs with
+       | Some words => words
+       | None => gen            (* generated into the new file, or the in-memory fallback: the same words *)
+       end.
+
+Section EthSeal.
+  Context {Header Sched : Type} (light : list N -> Header -> bool) (full : Sched -> Header -> option bool).
+
+  Definition verify_seal (fulldag cache_dir_empty : bool) (gen : list N) (fs : fs_env) (sc : Sched) (h : Header) : bool :=
+    let by_cache := light (cache_generate cache_dir_empty gen fs) h in
+    if fulldag then match full sc h with Some v => v | None => by_cache end else by_cache.
+
+  (** VerifyCascadingFields: ErrHeader unless the seal verifies *)
+  Definition verify_cascading_env (fulldag cache_dir_empty : bool) (gen : list N) (fs : fs_env) (sc : Sched) (h : Header) : outcome unit :=
+    if verify_seal fulldag cache_dir_empty gen fs sc h then Ok tt else Err.
+End EthSeal.
+
+(** ** The specific transcriptions: which loop of the source each definition above transcribes, and the lemma of
+    [Proofs/MapLoops.v] that proves its order independence (certificates in [Proofs/MapLoopsTable.v]).
+
+    This table is DOCUMENTATION plus a name check; it no longer decides whether a [range]-over-map statement of the
+    source is covered.  That is decided by [Model/MapLoopsIR.v: classify] on the loop as REGENERATED from the source
+    ([Gen/HazardsGen.v: map_range_sites_ir]), whose soundness for every evaluator is [Proofs/MapLoopsIR.v]; the
+    transcriptions here say what the loops COMPUTE (sorted key set, existence test, handler table, ...) and are tied
+    to the real functions by the differential run ([Model/MapLoopsCheck.v]). *)
 Local Open Scope string_scope.
 
-(** (file, function, sha256-prefix of the normalised [for ... range] statement, sha256-prefix of the normalised enclosing
-    function declaration, disposition).  The function hash is part of the key because what happens to the loop's result
-    afterwards belongs to the obligation (validators(): the SORT after the loop is what makes the slice order independent). *)
-Definition site_table : list (string * string * string * string * disposition) := [
-  ("adapter/gov/adapter.go", "NewHookAdapter", "abe7dbd2d6c78573", "0c03d1933616a7f1", Proved "handler_loop_perm");
-  ("adapter/staking/adapter.go", "NewHookAdapter", "d55918f439e7900a", "1ea49b5cef02a55c", Proved "handler_loop_perm");
-  ("app/app.go", "*Teleport.BlockedAddrs", "47b8a240e28de7b6", "1923d4adb8ecb2dd", Proved "insert_loop_perm");
-  ("app/app.go", "*Teleport.ModuleAccountAddrs", "8b8d88fae09df518", "908ad5c64d780d61", Proved "insert_loop_const_perm");
-  ("app/app.go", "GetMaccPerms", "c000710fa0950b50", "65321bf763126ecf", Proved "copy_loop_perm");
-  ("app/app.go", "GetStoreKeys", "b85e3f538d622cf5", "04ff6b29cdf3cd5c", Proved "copy_loop_perm");
-  ("x/xibc/clients/light-clients/bsc/types/header.go", "verifySeal", "9178e3619a9a33bf", "5b87e3f6dc2de05f", Proved "recents_loop_perm");
-  ("x/xibc/clients/light-clients/bsc/types/snapshot.go", "*snapshot.validators", "6a066d0ac90ca0cd", "5389bb7093870470", Proved "validators_loop_perm");
-  (* ethash remote-sealer goroutine (mining work distribution).  Started by New() -> startRemoteSealer and stopped by
-     Close(); its maps (works, rates) are filled only by the RPC channels submitWorkCh / submitRateCh, which nothing
-     in teleport writes to; VerifySeal reads none of its state.  [total += rate.rate] is a FLOAT sum and is
-     order-dependent: it feeds fetchRateCh (Hashrate()) only. *)
-  ("x/xibc/clients/light-clients/eth/types/sealer.go", "*remoteSealer.loop", "6a4b56cc9067b274", "2611971c6e905a0c",
-     Argued "float sum of reported hash rates, order-dependent; reaches only Ethash.Hashrate() (mining statistics); the rates map is filled through submitRateCh (RPC), never by the state machine");
-  ("x/xibc/clients/light-clients/eth/types/sealer.go", "*remoteSealer.loop", "04c174fb6bf56429", "2611971c6e905a0c",
-     Argued "deletes stale mining work packages from remoteSealer.works; filled through workCh (Seal), never by header verification");
-  ("x/xibc/clients/light-clients/eth/types/sealer.go", "*remoteSealer.loop", "0dcd198901d8f37f", "2611971c6e905a0c",
-     Argued "drops hash-rate reports older than 10 s (time.Since) from remoteSealer.rates; mining statistics only")
+(** (file, function, lemma) *)
+Definition site_table : list (string * string * string) := [
+  ("adapter/gov/adapter.go", "NewHookAdapter", "handler_loop_perm");
+  ("adapter/staking/adapter.go", "NewHookAdapter", "handler_loop_perm");
+  ("app/app.go", "*Teleport.BlockedAddrs", "insert_loop_perm");
+  ("app/app.go", "*Teleport.ModuleAccountAddrs", "insert_loop_const_perm");
+  ("app/app.go", "GetMaccPerms", "copy_loop_perm");
+  ("app/app.go", "GetStoreKeys", "copy_loop_perm");
+  ("x/xibc/clients/light-clients/bsc/types/header.go", "verifySeal", "recents_loop_perm");
+  ("x/xibc/clients/light-clients/bsc/types/snapshot.go", "*snapshot.validators", "validators_loop_perm")
 ].
 
 (** the lemma names the table relies on (checked against the certificates in [Proofs/MapLoopsTable.v]) *)
-Definition lemmas_used : list string :=
-  flat_map (fun t => match t with (_, _, _, _, Proved n) => [n] | _ => [] end) site_table.
+Definition lemmas_used : list string := map (fun t => snd t) site_table.
